@@ -312,7 +312,7 @@ pub fn check_case(c: &Case, st: &mut Stats) -> PResult {
                 continue;
             }
             let Ok(s) = std::str::from_utf8(raw) else { continue };
-            let toks = tokens_plain(s);
+            let Ok(toks) = guard(|| tokens_plain(s)) else { continue };
             let Some(HT::Start { name, attrs, sc }) = toks.first() else { fail!("C16: html5ever did not produce a start tag for {s:?}: {toks:?}") };
             let mut dedup: Vec<(String, String)> = vec![];
             for a in &e.attrs {
